@@ -2,6 +2,7 @@ import FlVerif.Op.Cascade
 import FlVerif.Gen.SetterGen
 import Mathlib.Tactic.Linarith
 import FlVerif.Lemmas.CodeCascade
+import FlVerif.Lemmas.CodeEngineIOVar
 
 /-! # C12 — Output values follow the lock-previous / default / lock-range cascade
 
@@ -228,6 +229,41 @@ theorem gen_value_setter (c : CascadeCfg α) (v : X α) :
     setter c v = if c.lockRange then Gen.Setter.valueLocked c.lo c.hi v else Gen.Setter.valueUnlocked c.lo c.hi v := by
   unfold setter Gen.Setter.valueLocked Gen.Setter.valueUnlocked X.clip
   cases c.lockRange <;> rfl
+
+/-- **Tie A (code → model), from the AST.**  `Gen.Code.Variable_set_value` is the setter of `Variable.value` translated
+    statement by statement from the current source (`fv/pylean.py`; the attributes `lock_range`, `minimum`, `maximum`
+    are the fields of the configuration, `np.clip` is `X.clip`): what it stores in `_value` is `Op.setter` – for every
+    configuration and every value.  (The symbolic trace `Gen.Setter.*` above runs the setter on symbolic values; this
+    theorem reads its source.  `Py.Cascade.setValue`, `InVar.setValue` – the setter as the other translated functions
+    call it – are this function row by row.) -/
+theorem code_valueSetter (c : CascadeCfg Rat) (v : X Rat) :
+    ∃ σ, Gen.Code.Variable_set_value.run c v {} = .ok σ ∧ σ.self__value = setter c v :=
+  Op.code_valueSetter c v
+
+/-- the two forms in which the translated callers use the setter are `Op.setter` -/
+theorem setValue_is_setter (c : CascadeCfg Rat) (rows : List (X Rat)) :
+    Py.Cascade.setValue c rows = rows.map (setter c) := rfl
+
+/-- **Tie A.**  `Variable.drange` as translated from the source: `maximum - minimum` -/
+theorem code_drange (c : CascadeCfg Rat) :
+    ∃ σ, Gen.Code.Variable_drange.run c {} = .ok σ ∧ σ.ret = some (Op.drange c) :=
+  Op.code_drange c
+
+/-- **Tie A.**  The getter of `Variable.range` as translated from the source: `(minimum, maximum)` -/
+theorem code_range (c : CascadeCfg Rat) :
+    ∃ σ, Gen.Code.Variable_range.run c {} = .ok σ ∧ σ.ret = some (Op.range c) :=
+  Op.code_range c
+
+/-- **Tie A.**  The setter of `Variable.range` as translated from the source: the first component becomes the minimum,
+    the second the maximum; nothing else is assigned (the value held is not clipped again, `lock_range` is untouched) -/
+theorem code_setRange (c : CascadeCfg Rat) (p : X Rat × X Rat) :
+    ∃ σ, Gen.Code.Variable_set_range.run p { self_minimum := c.lo, self_maximum := c.hi } = .ok σ ∧
+      σ.self_minimum = (Op.setRange c p).lo ∧ σ.self_maximum = (Op.setRange c p).hi :=
+  Op.code_setRange c p
+
+/-- a value set under `lock_range` lies in the range that was set before it (`setRange` then `setter`) -/
+example : setter (Op.setRange (α := ℚ) { lockPrev := false, lockRange := true, dflt := nan, lo := fin 0, hi := fin 1 }
+    (fin 2, fin 3)) (fin 0) = fin 2 := by decide +kernel
 
 /-! ## non-vacuity -/
 example : (commit (α := ℚ) { lockPrev := true, lockRange := true, dflt := fin 5, lo := fin 0, hi := fin 1 }
